@@ -431,3 +431,32 @@ Proof.
     rewrite RR, !LR, !Z.eqb_refl. reflexivity. }
   apply R.
 Qed.
+
+(* ---- small instances with cancellation-aware members under ExecuteUpTo ----
+   Not a theorem of the property (bounded): it documents that the closed-form contract and the
+   model also coincide where [exec_meets_contract] has a hypothesis, for every group of up to 3
+   members of every kind (aware or not), every order and budgets -1..3 / strategies 0..7. *)
+Fixpoint perms (l : list nat) (fuel : nat) : list (list nat) :=
+  match fuel with
+  | O => [[]]
+  | S f => match l with
+           | [] => [[]]
+           | _ => flat_map (fun x => map (fun p => x :: p) (perms (remove_nat x l) f)) l
+           end
+  end.
+Fixpoint vecs (n : nat) : list (list member) :=
+  match n with
+  | O => [[]]
+  | S k => flat_map (fun v => map (fun m => m :: v)
+                        [mkM Ok false; mkM Fail false; mkM FailMsg false; mkM Ok true; mkM Fail true; mkM FailMsg true])
+                    (vecs k)
+  end.
+Definition small_apis : list api :=
+  [AExecute 0; AExecute 1; AExecute 2; AExecute 3; AExecute 4; AExecute 5; AExecute 6; AExecute 7;
+   AUpTo (-1); AUpTo 0; AUpTo 1; AUpTo 2; AUpTo 3; AOne; AFast; ARace].
+Definition small_instances_agree (n : nat) : bool :=
+  forallb (fun ms => forallb (fun o => forallb (fun a => result_eqb (exec a ms o) (contract a ms o)) small_apis)
+                             (perms (seq 0 n) n)) (vecs n).
+Lemma small_instances : small_instances_agree 0 && small_instances_agree 1 && small_instances_agree 2
+                        && small_instances_agree 3 = true.
+Proof. vm_compute. reflexivity. Qed.
